@@ -131,6 +131,9 @@ def _xv_call(name, kind, version, kw):
             with open(fpath) as f:
                 fail = set(f.read().split("\n"))
     if fail and enc in fail:
+        exc = getattr(builtins, "_xv_fail_exc", None)
+        if exc == "StopIteration":
+            raise StopIteration("xv-fail: " + enc)
         raise RuntimeError("xv-fail: " + enc)
     unp = getattr(builtins, "_xv_unpick", None)
     if unp and enc in unp:
@@ -149,16 +152,21 @@ value = _NS["_xv_value"]
 
 
 def make_fn(args, kind="num", name="xvfn", version=0, defaults=None,
-            delay=None):
+            delay=None, varkw=()):
     """Build ``def name(a, b, k=<default>)`` returning the encoding of its
-    keyword arguments as result ``kind``."""
+    keyword arguments as result ``kind``.  Arguments named in ``varkw`` are
+    not in the signature: they arrive through ``**kw``."""
     defaults = defaults or {}
     parts = []
     for a in args:
+        if a in varkw:
+            continue
         if a in defaults:
             parts.append("%s=%r" % (a, defaults[a]))
         else:
             parts.append(a)
+    if varkw:
+        parts.append("**_kw")
     pre = ""
     if delay:
         # (argument, value, seconds): that setting is slow, so that a real
@@ -170,7 +178,8 @@ def make_fn(args, kind="num", name="xvfn", version=0, defaults=None,
             test, secs)
     src = "def {name}({sig}):\n{pre}    return _xv_call({name!r}, {kind!r}, {version!r}, dict({kws}))\n".format(
         name=name, sig=", ".join(parts), kind=kind, version=version, pre=pre,
-        kws=", ".join("%s=%s" % (a, a) for a in args),
+        kws=", ".join(["%s=%s" % (a, a) for a in args if a not in varkw]
+                      + (["**_kw"] if varkw else [])),
     )
     ns = dict(_NS)
     exec(src, ns)
@@ -224,15 +233,18 @@ class UnpicklableSet:
 
 
 class FailSet:
-    def __init__(self, encs):
+    def __init__(self, encs, exc=None):
         self.encs = set(encs)
+        self.exc = exc
 
     def __enter__(self):
         self._old = getattr(builtins, "_xv_fail", None)
         builtins._xv_fail = self.encs
+        builtins._xv_fail_exc = self.exc
         return self
 
     def __exit__(self, *a):
+        builtins._xv_fail_exc = None
         if self._old is None:
             del builtins._xv_fail
         else:
